@@ -101,6 +101,7 @@ type Gen struct {
 	preDecl    map[string]bool // symbols declared by the spec prelude
 	forbid     []Forbid
 	guardedBy  []GuardedBy
+	forbidFields []ForbidField
 	freeUsed   map[string]bool
 	orderHeaps []string
 	pass1      map[int]map[string]bool
